@@ -247,6 +247,11 @@ def scenarios_c13(r, tier):
     out.append({'paths': ['private.py', 'exporter.py'], 'files': dict(multi), 'flags': ['--in-place', '--rename-globals'], 'pg': ['main']})
     out.append({'paths': ['generic.py', 'locals.py'], 'files': dict(multi), 'flags': ['--in-place']})
     out.append({'paths': ['exporter.py', 'private.py', 'generic.py', 'locals.py'], 'files': dict(multi), 'flags': ['--in-place', '--rename-globals'], 'pl': ['factor']})
+    # the size rule is part of what the tool writes: sources at the boundary (same number of characters, more UTF-8 bytes; legacy encodings)
+    for k, b in enumerate(BOUNDARY):
+        out.append(mk_route(['file', 'stdin', 'file-output', 'inplace', 'stdin-output'][k % 5], b.encode('utf-8'), []))
+    for k, b in enumerate([LATIN1, COOKIE_SRC, COOKIE2_SRC, NONASCII, GROWING, GROW1, EMPTY, BOM]):
+        out.append(mk_route(['file', 'inplace', 'stdin', 'file-output', 'stdin-output'][k % 5], b, [] if k % 2 else ['--rename-globals']))
     # invalid combinations: nothing may be read or written
     out.append({'paths': ['-', 'a.py'], 'files': {'a.py': WITNESS}, 'stdin': WITNESS, 'flags': ['--in-place']})
     out.append({'paths': ['-', 'a.py'], 'files': {'a.py': WITNESS}, 'stdin': WITNESS, 'flags': []})
@@ -329,6 +334,12 @@ def scenarios_c15(r, tier):
     out.append({'paths': ['x.py'], 'files': tree, 'flags': [], 'output': 'o.py'})
     out.append({'paths': ['x.py'], 'files': tree, 'flags': []})
     out.append({'paths': ['nonexistent.py'], 'files': tree, 'flags': ['--in-place'], 'fail': 'unreadable'})
+    # --output that IS the source (same path, through a symlink), and a failing source next to an --output file
+    out.append({'paths': ['x.py'], 'files': tree, 'flags': [], 'output': 'x.py'})
+    out.append({'paths': ['p/a.py'], 'files': dict(tree, **{'alias.py': ('link', 'p/a.py')}), 'flags': [], 'output': 'alias.py'})
+    out.append({'paths': ['alias.py'], 'files': dict(tree, **{'alias.py': ('link', 'p/a.py')}), 'flags': [], 'output': 'p/a.py'})
+    out.append({'paths': ['bad.py'], 'files': dict(tree, **{'bad.py': INVALID}), 'flags': [], 'output': 'bad.py', 'fail': 'invalid'})
+    out.append({'paths': ['bad.py'], 'files': dict(tree, **{'bad.py': UNDECODABLE, 'alias.py': ('link', 'bad.py')}), 'flags': [], 'output': 'alias.py', 'fail': 'undecodable'})
     return out
 
 
